@@ -57,11 +57,122 @@ def expected_voxel(raw, slope, inter, pre, out_dt):
     return cl(v), cl(v - tol), cl(v + tol)
 
 
+class RecordingWriter:
+    """stands for PrecomputedIO: records every write_chunk call"""
+
+    def __init__(self, info):
+        self.info = info
+        self.calls = []
+
+    def write_chunk(self, chunk, key, coords):
+        self.calls.append((tuple(int(c) for c in coords), np.array(chunk)))
+
+
+def identity_volumes(ctx, volume_reader):
+    """the conversion loop on volumes whose value NAMES the voxel: every recorded chunk (box and content, position by
+    position) is compared with the Lean `Volume.convert`"""
+    rng = ctx.rng
+    reqs, meta = [], []
+    for _ in range(ctx.budget(12, 400)):
+        cs = [rng.choice([1, 2, 3, 4, 5, 8]) for _ in range(3)]
+        size = [rng.choice([1, c, 2 * c, c + 1, max(1, c - 1), rng.randrange(1, 12)]) for c in cs]
+        C = rng.choice([0, 1, 2, 3])       # 0: a 3-D array (the loop adds the channel axis)
+        nC = max(1, C)
+        vol = np.arange(size[0] * size[1] * size[2] * nC, dtype=np.uint32).reshape(tuple(size) + ((C,) if C else ()))
+        if rng.random() < 0.3:
+            vol = np.asfortranarray(vol)    # memory layout must not matter
+        w = RecordingWriter({"data_type": "uint32", "num_channels": nC,
+                             "scales": [{"key": "full", "size": size, "chunk_sizes": [cs]}]})
+        desc = {"identity_volume": True, "size": size, "chunk_size": cs, "channels": C}
+        try:
+            volume_reader.volume_to_precomputed(w, vol, chunk_transformer=rng.choice([None, lambda c, preserve_input=True: c]))
+        except Exception as exc:  # noqa
+            ctx.oracle_fail(f"volume_to_precomputed raised {type(exc).__name__}: {exc}", desc)
+            continue
+        ctx.case(("identity", tuple(size), tuple(cs), C), nontrivial=len(w.calls) > 1)
+        # oracle, independent of the model: the (C, Z, Y, X) chunk at box b holds vol[x, y, z, c]
+        v4 = vol.reshape(tuple(size) + (nC,))
+        for b, arr in w.calls:
+            want = np.moveaxis(v4[b[0]:b[1], b[2]:b[3], b[4]:b[5], :], (0, 1, 2, 3), (3, 2, 1, 0))
+            if arr.shape != want.shape or not np.array_equal(arr, want):
+                ctx.oracle_fail("a written chunk does not hold the input voxels of its box in (C, Z, Y, X) order",
+                                dict(desc, chunk=list(b)))
+                break
+        reqs.append(f"vol-convert {core.ilist(size)} {core.ilist(cs)} {nC}")
+        meta.append((desc, {"%d-%d.%d-%d.%d-%d" % b: core.ilist(int(v) for v in arr.ravel()) for b, arr in w.calls},
+                     len(w.calls)))
+    if ctx.driver_ok and reqs:
+        for rep, (desc, calls, n) in zip(core.driver_batch(reqs), meta):
+            model = dict(part.split(":", 1) for part in rep.split(";"))
+            ctx.bump("identity_chunks_compared", n)
+            if model != calls or n != len(model):
+                diff = sorted(set(model) ^ set(calls)) or [b for b in model if model[b] != calls.get(b)]
+                ctx.corr_mismatch("vol-convert", dict(desc, first_difference=diff[:2]),
+                                  str({b: calls.get(b) for b in diff[:1]})[:300], str({b: model.get(b) for b in diff[:1]})[:300])
+
+
+def rewritten_scaling(ctx, volume_reader):
+    """--input-min / --input-max: the slope and intercept the code leaves on the nibabel proxy, compared with the Lean
+    `rewriteScaling` over exact rationals whenever the float64 computation is exact"""
+    import nibabel
+    rng = ctx.rng
+    reqs, meta = [], []
+    for _ in range(ctx.budget(20, 400)):
+        out_dt = rng.choice(["uint8", "uint16", "float32"])
+        omin, omax = (0, 1) if out_dt == "float32" else (0, int(np.iinfo(out_dt).max))
+        # spans that make (omax - omin) / (imax - imin) a short dyadic number
+        span = rng.choice([1, 3, 5, 15, 17, 51, 85, 255, 257, 65535] if out_dt != "float32" else [1, 2, 4, 8]) * 2 ** rng.randrange(0, 4)
+        imin = rng.choice([0, 0, -16, 10, 100])
+        imax = imin + span
+        slope, inter = rng.choice([(1.0, 0.0), (0.5, -20.0), (2.0, 1.0), (0.25, 3.0), (4.0, -7.0)])
+        raw = np.arange(24, dtype="int16").reshape(2, 3, 4)
+        img = nibabel.Nifti1Image(raw, np.eye(4))
+        img.header.set_slope_inter(slope, inter)
+        img = nibabel.Nifti1Image.from_bytes(img.to_bytes())
+        w = RecordingWriter({"data_type": out_dt, "num_channels": 1,
+                             "scales": [{"key": "full", "size": [2, 3, 4], "chunk_sizes": [[2, 3, 4]], "resolution": [1e6] * 3}]})
+        w.accessor = type("A", (), {"close": staticmethod(lambda: None)})()
+        desc = {"rewritten_scaling": True, "header_slope_inter": [slope, inter], "input_min": imin, "input_max": imax,
+                "output_dtype": out_dt}
+        try:
+            with np.errstate(all="ignore"):
+                volume_reader.nibabel_image_to_precomputed(img, w, False, imin if (imin or rng.random() < 0.5) else None, imax, True)
+        except Exception as exc:  # noqa
+            ctx.oracle_fail(f"nibabel_image_to_precomputed raised {type(exc).__name__}: {exc}", desc)
+            continue
+        got_s, got_i = Fraction(float(img.dataobj.slope)), Fraction(float(img.dataobj.inter))
+        ps = Fraction(omax - omin, imax - imin)
+        want_s, want_i = Fraction(slope) * ps, Fraction(inter) * ps + (omin - imin * ps)
+        ctx.case(("rewrite", slope, inter, imin, imax, out_dt))
+        exact = all(Fraction(float(v)) == v for v in (ps, want_s, want_i, Fraction(inter) * ps, imin * ps))
+        if not exact:
+            ctx.bump("rewritten_scaling_inexact_skipped")
+            continue
+        if (got_s, got_i) != (want_s, want_i):
+            ctx.oracle_fail("the slope/intercept left on the image do not compose the header scaling with the "
+                            "[input_min, input_max] -> target range mapping", dict(desc, got=[str(got_s), str(got_i)],
+                                                                                    want=[str(want_s), str(want_i)]))
+        q = lambda v: "%d/%d" % (Fraction(v).numerator, Fraction(v).denominator)  # noqa
+        reqs.append(f"value-map {q(slope)} {q(inter)} {q(imin)} {q(imax)} {q(omin)} {q(omax)}")
+        meta.append((desc, (got_s, got_i)))
+    if ctx.driver_ok and reqs:
+        for rep, (desc, (gs, gi)) in zip(core.driver_batch(reqs), meta):
+            try:
+                ms, mi = (Fraction(int(t.split("/")[0]), int(t.split("/")[1])) for t in rep.split(" "))
+            except Exception:  # noqa
+                ms = mi = None
+            ctx.bump("rewritten_scaling_compared")
+            if (ms, mi) != (gs, gi):
+                ctx.corr_mismatch("value-map", desc, f"{gs} {gi}", rep)
+
+
 def run(ctx):
     from neuroglancer_scripts import volume_reader, precomputed_io
     from neuroglancer_scripts.accessor import get_accessor_for_url
     rng = ctx.rng
     reqs, meta = [], []
+    identity_volumes(ctx, volume_reader)
+    rewritten_scaling(ctx, volume_reader)
     for _ in range(ctx.budget(45, 1200)):
         tmp = tempfile.mkdtemp(prefix="ngv_c01_")
         try:
